@@ -1,1 +1,170 @@
-def main : IO Unit := IO.println "stub"
+/-
+  drv_pickle — runs the `PickleSM` model on object graphs extracted from the real labrea objects.
+
+  One case per input line, blank-separated tokens (strings are percent-escaped by the harness and
+  never unescaped here: the model only compares them):
+
+      <root> <nobj> obj*  <nns> (name id)*  <nrecv> name*
+      obj  := <id> head <nkids> fld*
+      head := I <cls> <nattrs> attr*  |  L | T | S | D  |  F <qualname>
+      fld  := n | b0 | b1 | i<int> | s<str> | r<id> | l<lockkey>
+
+  Output, one line per case:
+
+      E <ok | error>  [ D <ok | error>  T <tables>  R <tables> ]
+
+  `T` = for every `Overloaded` object of the *decoded* heap, in order of first visit: `L` / `N`
+  (holds a lock / does not) and its lookup table as `key>label` pairs; `R` = the same after
+  `register("late", <a new Option('LATE')>)` on each of them (`!noLock` where that fails).
+-/
+import LabreaModel.PickleSM
+open Labrea.Pickle
+
+abbrev P := StateT (List String) (Except String)
+
+def tok : P String := do
+  match (← get) with
+  | [] => throw "unexpected end of line"
+  | t :: r => set r; pure t
+
+def pnat : P Nat := do
+  let t ← tok
+  match t.toNat? with
+  | some n => pure n
+  | none => throw s!"not a number: {t}"
+
+def rep {α : Type} (p : P α) : Nat → P (List α)
+  | 0 => pure []
+  | n + 1 => do let x ← p; let xs ← rep p n; pure (x :: xs)
+
+def pfld : P Fld := do
+  let t ← tok
+  match t.toList with
+  | ['n'] => pure (.sc .none)
+  | ['b', '0'] => pure (.sc (.bool false))
+  | ['b', '1'] => pure (.sc (.bool true))
+  | 'i' :: cs => match (String.ofList cs).toInt? with
+    | some i => pure (.sc (.int i))
+    | none => throw s!"bad int {t}"
+  | 's' :: cs => pure (.sc (.str (String.ofList cs)))
+  | 'r' :: cs => match (String.ofList cs).toNat? with
+    | some i => pure (.ref i)
+    | none => throw s!"bad ref {t}"
+  | 'l' :: cs => match (String.ofList cs).toNat? with
+    | some i => pure (.lock i)
+    | none => throw s!"bad lock {t}"
+  | _ => throw s!"bad field {t}"
+
+def phead : P Head := do
+  let t ← tok
+  match t with
+  | "I" => do
+    let cls ← tok
+    let n ← pnat
+    let attrs ← rep tok n
+    pure (.inst cls attrs)
+  | "L" => pure .list
+  | "T" => pure .tuple
+  | "S" => pure .set
+  | "D" => pure .dict
+  | "F" => do let q ← tok; pure (.func q)
+  | _ => throw s!"bad head {t}"
+
+def pobj : P (Id × Obj) := do
+  let i ← pnat
+  let hd ← phead
+  let n ← pnat
+  let kids ← rep pfld n
+  pure (i, ⟨hd, kids⟩)
+
+structure Case where
+  root : Id
+  heap : Heap
+  ns : List (Name × Id)
+  recv : List Name
+
+def pcase : P Case := do
+  let root ← pnat
+  let n ← pnat
+  let heap ← rep pobj n
+  let k ← pnat
+  let ns ← rep (do let a ← tok; let i ← pnat; pure (a, i)) k
+  let m ← pnat
+  let recv ← rep tok m
+  pure ⟨root, heap, ns, recv⟩
+
+/-- how a table entry's target is shown: class + its `__qualname__` (datasets) or `key` (options) -/
+def label (h : Heap) : Fld → String
+  | .sc v => v.show
+  | .lock _ => "lock"
+  | .ref j =>
+    match hget h j with
+    | some ⟨.inst cls attrs, kids⟩ =>
+      let nm := match getAttr attrs kids "__qualname__" with
+        | some (.sc (.str s)) => s
+        | _ => match getAttr attrs kids "key" with
+          | some (.sc (.str s)) => s
+          | _ => ""
+      cls ++ "/" ++ nm
+    | some ⟨.func n, _⟩ => "F/" ++ n
+    | some ⟨.list, _⟩ => "L"
+    | some ⟨.tuple, _⟩ => "T"
+    | some ⟨.set, _⟩ => "S"
+    | some ⟨.dict, _⟩ => "D"
+    | none => "?"
+
+def isOverloaded (h : Heap) (i : Id) : Bool :=
+  match hget h i with
+  | some ⟨.inst "Overloaded" _, _⟩ => true
+  | _ => false
+
+def tableStr (h : Heap) (ov : Id) : String :=
+  match hget h ov with
+  | some ⟨.inst "Overloaded" attrs, kids⟩ =>
+    let lk := match getAttr attrs kids "_lock" with
+      | some (.lock _) => "L"
+      | _ => "N"
+    match table h ov with
+    | some t => lk ++ "[" ++ ",".intercalate (t.map fun kv => label h kv.1 ++ ">" ++ label h kv.2) ++ "]"
+    | none => lk ++ "?"
+  | _ => "?"
+
+def runCase (c : Case) : String :=
+  let ns := nsOf c.ns
+  match encode c.heap ns c.root with
+  | .error e => "E " ++ e.show
+  | .ok p =>
+    match decode (definedOf c.recv) p with
+    | .error e => "E ok D " ++ e.show
+    | .ok (h', _) =>
+      let n := h'.length
+      let ovs := (List.range n).filter (isOverloaded h')
+      let t := ";".intercalate (ovs.map (tableStr h'))
+      -- one new Option('LATE') registered under "late" on every Overloaded
+      let late := freshId h'
+      let h1 : Heap := (late, ⟨.inst "Option" ["key"], [.sc (.str "LATE")]⟩) :: h'
+      let (h2, errs) := ovs.foldl (fun (acc : Heap × List Id) ov =>
+        match register acc.1 ov (.sc (.str "late")) (.ref late) with
+        | .ok h'' => (h'', acc.2)
+        | .error _ => (acc.1, ov :: acc.2)) (h1, [])
+      let r := ";".intercalate (ovs.map fun ov =>
+        if errs.contains ov then "!noLock" else tableStr h2 ov)
+      "E ok D ok T " ++ t ++ " R " ++ r
+
+def handle (line : String) : String :=
+  let toks := (line.splitOn " ").filter (· ≠ "")
+  match pcase.run toks with
+  | .error e => "PARSE-ERROR " ++ e
+  | .ok (c, rest) => if rest.isEmpty then runCase c else "PARSE-ERROR trailing tokens"
+
+partial def loop (hin : IO.FS.Stream) (hout : IO.FS.Stream) : IO Unit := do
+  let line ← hin.getLine
+  if line.isEmpty then pure () else
+    let l := String.ofList (line.toList.reverse.dropWhile (fun c => c == '\n' || c == '\r' || c == ' ')).reverse
+    if l.isEmpty then hout.putStrLn "" else hout.putStrLn (handle l)
+    loop hin hout
+
+def main : IO Unit := do
+  let hin ← IO.getStdin
+  let hout ← IO.getStdout
+  loop hin hout
